@@ -240,6 +240,9 @@ def check_program(p, st):
 def _shard(shard, nshards, payload):
     st = Stats()
     progs = programs(payload['tier'])
+    if payload.get('o'):
+        # under python -O: the definitions that must be rejected, and the one-byte compositions
+        progs = [p for p in progs if p.get('bad') or (sum(p['widths']) == 8 and not p.get('lent') and p.get('gen') is not False)]
     for i, p in enumerate(progs):
         if i % nshards != shard:
             continue
@@ -251,6 +254,10 @@ def _shard(shard, nshards, payload):
 
 def run(tier):
     st = common.merge_all(common.run_sharded(_shard, {'tier': tier}))
+    from mc import ea_o
+    so = ea_o.run_shard('mc.props.c07', '_shard', {'tier': tier, 'o': True})      # rejections and one-byte runs once more under python -O
+    st.merge(so)
+    st.notes.extend(so.notes)
     cov = {
         'states': st.count('outcomes'),
         'transitions': st.n.get('evaluations', 0),
@@ -263,13 +270,13 @@ def run(tier):
                 '(<=2 parts, a 1-bit field at every position, a field straddling every byte boundary); unpack: all 256 patterns (1 byte) / '
                 'walking-one, walking-zero, alternating and byte-lane patterns; pack: per field {0,1,2^w-1,2^w,2^w+1,-1,-2^(w-1),3*2^w} with '
                 'neighbours all-zeros and all-ones; histories on one packet (unpack, set a field, pack; raise it, pack, lower it, pack); '
-                'all runs of total 1..17 bits not a multiple of 8 must fail at class definition' %
+                'all runs of total 1..17 bits not a multiple of 8 must fail at class definition; those and the one-byte compositions once more in child interpreters started with -O' %
                 ('all 32768' if tier == 'thorough' else 'all 576 <=4-part'),
         'exhaustive': True,
         'bounds': {'tier': tier},
         'samples': st.samples,
     }
-    return {'stats': st, 'coverage': cov,
+    return {'stats': st, 'coverage': cov, 'harness_errors': [n for n in st.notes if n.startswith('HARNESS')],
             'assumptions': ['only full-length inputs (short reads of 3/5/6-byte groups belong to C04)']}
 
 
